@@ -43,17 +43,26 @@ def spec_scan(ops, impl):
     fsync that completed before the crash point; the append after recovery is visible."""
     bad = []
     written, at_op, syncs = [], {}, []
+    acked, pending_ack, nops = [], None, 0   # (first op index after an acknowledged Sync/Close, entries written by then)
     for i, op in enumerate(ops):
         if i >= len(impl):
             break
         f = op.split(" ")
         rep = impl[i]
+        if f[0] != "log" and pending_ack is not None:
+            acked.append((nops, pending_ack))
+            pending_ack = None
         if f[0] == "case":
             written, at_op, syncs = [], {}, []
+            acked, pending_ack, nops = [], None, 0
         elif f[0] == "act" and f[1] == "w":
             written = written + f[2].split(",")
-        elif f[0] == "log":
+        elif f[0] == "act" and f[1] in ("sync", "close") and rep == "ok ok" and (written or nops):
+            # Sync()/Close() returned nil to the caller (what fileWriterHandler treats as durable)
+            pending_ack = len(written) if nops or True else None
+        elif f[0] in ("log", "plant"):
             idx = int(f[1])
+            nops = idx + 1
             at_op[idx] = len(written)
             if f[2] == "sync" and f[8] == "ok":
                 syncs.append(idx)
@@ -62,6 +71,11 @@ def spec_scan(ops, impl):
             r = S.parse_img_reply(rep)
             done = [s for s in syncs if s < ci]
             lo = at_op[done[-1]] if done else 0
+            # an acknowledged Sync/Close that completed before the crash point makes its entries durable,
+            # fsync or not (a chronicler that never opened a writer has nothing to sync)
+            for aidx, cnt in acked:
+                if aidx <= ci and cj >= 0:
+                    lo = max(lo, cnt if any(k < aidx for k in at_op) else lo)
             ok = False
             for m in range(lo, len(written) + 1):
                 st = {}
@@ -75,7 +89,7 @@ def spec_scan(ops, impl):
                                        "the next load returns %s" % (" ".join(f[1:]), r.get("C"), r["A"]), "append"))
                     break
             if not ok:
-                bad.append((i, "crash image %s loads %s (reader: %s); %d entries were fsynced before the crash point"
+                bad.append((i, "crash image %s loads %s (reader: %s); %d entries were fsynced or acknowledged by a completed Sync/Close before the crash point"
                             % (" ".join(f[1:]), r.get("C"), r.get("L"), lo), "recover"))
         elif f[0] == "tick":
             want = ",".join("%d=%d" % (k, 100 + k) for k in range(1, int(f[1]) + 1))
